@@ -1,5 +1,10 @@
 package core
 
+import (
+	"cmp"
+	"sort"
+)
+
 // state.go: state keys for merging equivalent prefixes.
 //
 // The key of a prefix is its happens-before signature: for every
@@ -128,3 +133,26 @@ func (c *Cell[T]) Get() T { c.touch(1); return c.v }
 // Peek reads without recording an event: for use inside Block conditions only.
 func (c *Cell[T]) Peek() T { return c.v }
 func (c *Cell[T]) Set(v T) { c.touch(2); c.v = v }
+
+// RangeKeys returns the keys of m in the order a rewritten `for range m`
+// visits them.  Go's map iteration order is random; here it is sorted, and
+// under the scheduler the starting point of the (cyclic) order is an explorer
+// choice costing one deviation, so replays are deterministic and order
+// dependence is still explored.
+func RangeKeys[M ~map[K]V, K cmp.Ordered, V any](m M) []K {
+	keys := make([]K, 0, len(m))
+	for k := range m {
+		keys = append(keys, k)
+	}
+	sort.Slice(keys, func(i, j int) bool { return keys[i] < keys[j] })
+	if s := S; s != nil && len(keys) > 1 && !s.aborting.Load() {
+		n := len(keys)
+		if n > 4 {
+			n = 4
+		}
+		if r := ChooseCost(n, 1); r > 0 {
+			keys = append(keys[r:], keys[:r]...)
+		}
+	}
+	return keys
+}
